@@ -112,14 +112,15 @@ theorem jail (fs : FS κ) (root : κ) (fuel : Nat) (res : St κ) (h : walk fs ro
 example : ∀ y ∈ (match walk exFS 0 exFS.fuel with | .ok st => st.out | _ => []), y.2 ≠ 50 := by decide
 
 /-- **No descent into nested projects.** Every yielded path is `p ++ [name]` where `name` is a wanted
-non-directory entry of a directory reached from the scan root by a `Clean` path `p`: every directory on
-the way (the scan root excepted) resolves inside the jail and has no `snooty.toml`. In particular no
-directory other than the scan root that has a `snooty.toml` is ever scanned. -/
+non-directory entry of a directory reached from the scan root by a `Clean` path `p`: every directory on the
+way (the scan root excepted) resolves inside the jail and is not `pruned` - it neither has a `snooty.toml` nor lies
+inside a directory below the scan root that has one (`FS.inNested`: a link may lead into the middle of a nested
+project). In particular no such directory is ever scanned. -/
 theorem no_descent_into_nested (fs : FS κ) (root : κ) (hroot : fs.inJail root = true) (fuel : Nat) (res : St κ)
     (h : walk fs root fuel = .ok res) :
     (∀ y ∈ res.out, ∃ p b e, Clean fs root p b ∧ e ∈ fs.entries b ∧ y.1 = p ++ [e.name] ∧ e.wanted = true ∧
         (e.kind = .file y.2 ∨ e.kind = .dangling y.2)) ∧
-    (∀ b ∈ res.scans, b = root ∨ fs.hasToml b = false) := by
+    (∀ b ∈ res.scans, b = root ∨ fs.pruned b = false) := by
   have hI : CleanInv fs root [] res := by
     refine loop_inv fs (CleanInv fs root) (cleanInv_step fs root) fuel _ _ res ?_ h
     refine ⟨?_, ?_, ?_, ?_, ?_⟩ <;> try simp [St.init]
